@@ -66,4 +66,33 @@ theorem parse_name_rejects_tilde (src : Str) (fuel : Nat) (t : CTok) (rest : Lis
     (match parseName src (fuel + 1) (t :: rest) with | .panic _ => true | _ => false) = true := by
   simp [parseName, h]
 
+/-! ### `Path::new` on `@../../this`-shaped paths: the walk over the `../` run ends at the end of the list -/
+
+theorem takeWhile_ups (k : Nat) (rest : List PathSeg) (h : rest.head? ≠ some .up) :
+    (List.replicate k PathSeg.up ++ rest).takeWhile (· == .up) = List.replicate k PathSeg.up := by
+  induction k with
+  | zero =>
+    cases rest with
+    | nil => rfl
+    | cons x xs =>
+      have : (x == PathSeg.up) = false := by
+        apply beq_eq_false_iff_ne.mpr; intro e; subst e; simp at h
+      simp [List.takeWhile_cons, this]
+  | succ n ih => simp [List.replicate_succ, List.takeWhile_cons, ih]
+
+/-- a path made of `@`, any number of `../`, and nothing that names a variable (`@../this`: `this` leaves no segment behind)
+    is not a local-variable path: `Path::new` answers with the relative path, for every length of the `../` run – there is
+    no index past the end to take -/
+theorem local_marker_without_name_is_relative (k : Nat) (raw : Str) :
+    Path.new raw (.loc :: List.replicate k .up) = .relative (.loc :: List.replicate k .up) raw := by
+  have h := takeWhile_ups k [] (by simp)
+  simp only [List.append_nil] at h
+  simp [Path.new, getLocalPathAndLevel, h]
+
+/-- … and with a name behind the run it is the local variable of that level -/
+theorem local_marker_with_name (k : Nat) (n raw : Str) (more : List PathSeg) :
+    Path.new raw (.loc :: (List.replicate k .up ++ .named n :: more)) = .localVar k n raw := by
+  have h := takeWhile_ups k (.named n :: more) (by simp)
+  simp [Path.new, getLocalPathAndLevel, h]
+
 end Hbs.C04
